@@ -226,3 +226,27 @@ PROPS["C07"] = storage("C07", "Iggy.Props.C07", ["get-offset", "store-offset", "
                        ASSUME_NODE + ["named consumers resolve to xxhash32(name): isolation between two *named* consumers holds under the explicit hypothesis that their hashes differ (a 32-bit hash is not injective)"])
 PROPS["C18"] = storage("C18", "Iggy.Props.C18", ["poll-", "obs-changed"], ALL_POLL_KINDS,
                        ASSUME_NODE + ["within the configured id capacity and time-to-live: the harness configures 10^6 ids / 10 h, the model has no eviction (moka's eviction is outside the property)"])
+
+
+def retention(prop, module, spec_prefixes, corr_kinds, assumptions, n_quick=140, n_thorough=2500, mix=False):
+    def g(rng, focus, k=None, maxops=40):
+        if mix and k is not None and k % 2 == 1:
+            return gen_storage.gen(rng, focus, k, maxops)
+        return gen_storage.gen_retention(rng, focus, k, maxops)
+
+    def run(p, tier, seed, replay, t0):
+        return run_node_property(p, tier, seed, replay, t0, module=module, gen=g,
+                                 n_quick=n_quick, n_thorough=n_thorough, spec_prefixes=spec_prefixes,
+                                 corr_kinds=corr_kinds, assumptions=assumptions)
+    return {"run": run}
+
+
+PROPS["C03"] = storage("C03", "Iggy.Props.C03", ["obs-changed-restart", "poll-", "get-offset"],
+                       ALL_POLL_KINDS | {"figures", "offsets"}, ASSUME_NODE)
+PROPS["C14"] = retention("C14", "Iggy.Props.C14", ["poll-", "retention-illegal", "obs-changed"],
+                         ALL_POLL_KINDS | {"maintain", "update-topic"}, ASSUME_NODE + [
+                             "maintenance passes are driven through the real MaintainMessagesExecutor::execute with a command obtained from the real MessagesMaintainer; the interval timer itself is not exercised"])
+PROPS["C15"] = retention("C15", "Iggy.Props.C15", ["gate", "poll-", "retention-illegal"],
+                         ALL_POLL_KINDS | {"maintain", "update-topic", "create-topic", "figures"}, ASSUME_NODE + [
+                             "the almost-full threshold (size as f64 * 0.9) as u64 is modelled as floor(9*size/10); equal for the sizes used (exact in f64 below 2^53)"])
+PROPS["C16"] = retention("C16", "Iggy.Props.C16", ["figures-"], {"figures"}, ASSUME_NODE, mix=True)
